@@ -1,0 +1,181 @@
+//go:build verif
+
+// Package vhook holds verification hooks (enabled: built with -tags verif).
+// Events go to Sink when it is set (in-process harness), and/or are appended,
+// one line each, unbuffered, to the file named by BORNO_VHOOK_LOG (CLI use).
+// BORNO_VHOOK_MAXSTEPS / SetMaxSteps arms a budget on evaluation steps.
+package vhook
+
+import (
+	"fmt"
+	"os"
+	"strconv"
+)
+
+// Event is one observed hook event.
+type Event struct {
+	Kind string // step, envdefine, envlookup, envhit, envmiss, call, stdout, diag, input
+	A    string // sub-kind / channel / callee / node type
+	Name string
+	Env  int // scope id (0 = none)
+	Par  int // parent scope id
+	N    int // line, nargs, byte count
+	Flag bool
+	Msg  string
+}
+
+// Budget is the panic value raised in-process when a step budget is exhausted.
+type Budget struct{ What string }
+
+var (
+	Sink      func(Event)
+	TraceStep bool // when false, Step events are only counted, not sent to Sink
+
+	Steps      int64
+	LexSteps   int64
+	ParseSteps int64
+	maxSteps   int64
+	maxLex     int64
+	maxParse   int64
+
+	envIDs  = map[any]int{}
+	logFile *os.File
+	cliMode bool
+)
+
+func init() {
+	if p := os.Getenv("BORNO_VHOOK_LOG"); p != "" {
+		f, err := os.OpenFile(p, os.O_CREATE|os.O_WRONLY|os.O_APPEND, 0o644)
+		if err == nil {
+			logFile = f
+		}
+	}
+	if s := os.Getenv("BORNO_VHOOK_MAXSTEPS"); s != "" {
+		if n, err := strconv.ParseInt(s, 10, 64); err == nil {
+			maxSteps = n
+			cliMode = true
+		}
+	}
+}
+
+// Reset clears counters and the scope-id table (call between cases).
+func Reset() {
+	Steps, LexSteps, ParseSteps = 0, 0, 0
+	envIDs = map[any]int{}
+}
+
+func SetMaxSteps(eval, lex, parse int64) { maxSteps, maxLex, maxParse = eval, lex, parse }
+
+func emit(e Event) {
+	if Sink != nil {
+		Sink(e)
+	}
+	if logFile != nil {
+		fmt.Fprintf(logFile, "%s\t%s\t%q\t%d\t%d\t%d\t%t\t%q\n", e.Kind, e.A, e.Name, e.Env, e.Par, e.N, e.Flag, e.Msg)
+	}
+}
+
+func over(what string) {
+	if cliMode {
+		emit(Event{Kind: "budget", A: what})
+		fmt.Fprintln(os.Stderr, "VHOOK: step budget exceeded: "+what)
+		os.Exit(97)
+	}
+	panic(Budget{What: what})
+}
+
+func id(env any) int {
+	if env == nil {
+		return 0
+	}
+	// a typed nil pointer inside the interface still gets an id of 0
+	if fmt.Sprintf("%p", env) == "0x0" {
+		return 0
+	}
+	if n, ok := envIDs[env]; ok {
+		return n
+	}
+	n := len(envIDs) + 1
+	envIDs[env] = n
+	return n
+}
+
+func Step(node any) {
+	Steps++
+	if maxSteps > 0 && Steps > maxSteps {
+		over("eval")
+	}
+	if TraceStep && (Sink != nil || logFile != nil) {
+		emit(Event{Kind: "step", A: fmt.Sprintf("%T", node)})
+	}
+}
+
+func LexStep() {
+	LexSteps++
+	if maxLex > 0 && LexSteps > maxLex {
+		over("lex")
+	}
+}
+
+func ParseStep() {
+	ParseSteps++
+	if maxParse > 0 && ParseSteps > maxParse {
+		over("parse")
+	}
+}
+
+func EnvDefine(env, parent any, name string) {
+	if Sink == nil && logFile == nil {
+		return
+	}
+	emit(Event{Kind: "envdefine", Name: name, Env: id(env), Par: id(parent)})
+}
+
+func EnvLookup(kind string, env any, name string) {
+	if Sink == nil && logFile == nil {
+		return
+	}
+	emit(Event{Kind: "envlookup", A: kind, Name: name, Env: id(env)})
+}
+
+func EnvHit(kind string, env, parent any, name string) {
+	if Sink == nil && logFile == nil {
+		return
+	}
+	emit(Event{Kind: "envhit", A: kind, Name: name, Env: id(env), Par: id(parent)})
+}
+
+func EnvMiss(kind string, env any, name string) {
+	if Sink == nil && logFile == nil {
+		return
+	}
+	emit(Event{Kind: "envmiss", A: kind, Name: name, Env: id(env)})
+}
+
+func Call(callee any, nargs int) {
+	if Sink == nil && logFile == nil {
+		return
+	}
+	emit(Event{Kind: "call", A: fmt.Sprintf("%T", callee), Name: fmt.Sprint(callee), N: nargs})
+}
+
+func Stdout(kind string) {
+	if Sink == nil && logFile == nil {
+		return
+	}
+	emit(Event{Kind: "stdout", A: kind})
+}
+
+func Diag(channel string, line int, msg string) {
+	if Sink == nil && logFile == nil {
+		return
+	}
+	emit(Event{Kind: "diag", A: channel, N: line, Msg: msg})
+}
+
+func InputRead(n int, failed bool) {
+	if Sink == nil && logFile == nil {
+		return
+	}
+	emit(Event{Kind: "input", N: n, Flag: failed})
+}
